@@ -1764,10 +1764,13 @@ func makePointerArshaler(t reflect.Type) *arshaler {
 	init := func() {
 		valFncs = lookupArshaler(t.Elem())
 	}
+	// A chain of pointers and interfaces emits no JSON tokens, so the token
+	// depth never grows along it: such pointers are always tracked.
+	tokenless := t.Elem().Kind() == reflect.Pointer || t.Elem().Kind() == reflect.Interface
 	fncs.marshal = func(enc *jsontext.Encoder, va addressableValue, mo *jsonopts.Struct) error {
 		// Check for cycles.
 		xe := export.Encoder(enc)
-		if xe.Tokens.Depth() > startDetectingCyclesAfter {
+		if xe.Tokens.Depth() > startDetectingCyclesAfter || (tokenless && !va.IsNil()) {
 			if err := visitPointer(&xe.SeenPointers, va.Value); err != nil {
 				return newMarshalErrorBefore(enc, t, err)
 			}
